@@ -422,22 +422,32 @@ func c14run(w *report.W) {
 		if w.Thorough() {
 			bound = 3
 		}
-		ex := &explore.Explorer{Bound: bound, MaxExec: 200000}
-		ex.Run = func(x *explore.X) bool {
-			sp, vp, f, _, e := c14payload(st, x.Choose)
-			if e != "" || sp != ref || vp != ref || strings.Join(f, ",") != strings.Join(reff, ",") {
-				w.Violate(report.Violation{Kind: "seam-order-dependent", Case: in.Name + " schedule " + x.String(),
-					Detail: fmt.Sprintf("payload or field list depends on map iteration order: err=%q\n  sign   %s\n  verify %s\n  ref    %s\n  fields %v ref %v", e, sp, vp, ref, f, reff), Size: 500 + len(x.Choices)})
-				return false
+		// maps of <=4 entries fully open; if that exceeds the cap for this state the level is lowered (4, 3, 2, bounded only)
+		for _, open := range []int{4, 3, 2, 0} {
+			verifseam.OpenMaxLen = open
+			failed := false
+			ex := &explore.Explorer{Bound: bound, MaxExec: 200000}
+			ex.Run = func(x *explore.X) bool {
+				sp, vp, f, _, e := c14payload(st, x.Choose)
+				if e != "" || sp != ref || vp != ref || strings.Join(f, ",") != strings.Join(reff, ",") {
+					w.Violate(report.Violation{Kind: "seam-order-dependent", Case: in.Name + " schedule " + x.String(),
+						Detail: fmt.Sprintf("payload or field list depends on map iteration order: err=%q\n  sign   %s\n  verify %s\n  ref    %s\n  fields %v ref %v", e, sp, vp, ref, f, reff), Size: 500 + len(x.Choices)})
+					failed = true
+					return false
+				}
+				return true
 			}
-			return true
-		}
-		ex.Explore()
-		w.P.Evaluations += ex.Stats.Executions
-		w.P.Transitions += ex.Stats.Executions
-		w.Count("seam_schedules", ex.Stats.Executions)
-		if ex.Stats.Capped {
-			w.Inexhaustive("seam schedule cap for " + in.Name)
+			ex.Explore()
+			w.P.Evaluations += ex.Stats.Executions
+			w.P.Transitions += ex.Stats.Executions
+			w.Count("seam_schedules", ex.Stats.Executions)
+			if failed || !ex.Stats.Capped {
+				w.P.Bounds["seam:"+in.Name] = fmt.Sprintf("maps<=%d entries fully open, <=%d deviations beyond: %d schedules", open, bound, ex.Stats.Executions)
+				break
+			}
+			if open == 0 {
+				w.Inexhaustive("seam schedule cap for " + in.Name)
+			}
 		}
 	}
 	w.Sample(c14replay{"rich", "EdDSA", []string{"move:pipeline-env->step-env-with-prefix[P]"}, nil})
